@@ -148,6 +148,43 @@ def rejected(ri: int) -> bool:
     return not calls and len(w.log.access_calls) <= 1
 
 
+def keepalive_reject(ri: int, kind_i: int) -> bool:
+    """
+    pre: 0 <= ri <= 5 and 0 <= kind_i <= 1
+    post: __return__
+    """
+    # a served request followed, on the same keep-alive connection, by one the server rejects itself: the first request
+    # keeps its single truthful record; the rejected one adds at most one, and never one that names the first request
+    reqs = [b"GET /\r\n\r\n", b"GET / HTTP/1.1\r\nfoo\r\n\r\n",
+            b"GET / HTTP/1.1\r\nContent-Length: 3\r\nTransfer-Encoding: chunked\r\n\r\n",
+            b"GET / HTTP/1.1\r\nTransfer-Encoding: foo\r\n\r\n", b"G<T / HTTP/1.1\r\n\r\n", b"GET / HT"]
+    bad = reqs[pick(ri, 0, 5)]
+    kind = ["gthread", "async"][pick(kind_i, 0, 1)]
+    calls = []
+
+    def app(environ, start_response):
+        calls.append(environ["RAW_URI"])
+        start_response("200 OK", [("Content-Length", "2")])
+        return [b"ok"]
+    cfg = W.make_cfg(keepalive=2)
+    w = (W.thread_worker if kind == "gthread" else W.async_worker)(cfg, app)
+    c = RecSock([b"GET /first HTTP/1.1\r\nHost: h\r\n\r\n", bad])
+    _serve(kind, w, c)
+    recs = w.log.access_calls
+    reqs_logged = w.log.access_reqs
+    if calls != ["/first"] or not recs:
+        return False
+    if not recs[0][0].startswith("200") or recs[0][1] != 2:
+        return False
+    if len(recs) > 2:
+        return False
+    first_req = reqs_logged[0]
+    for r in reqs_logged[1:]:
+        if r is first_req:
+            return False                # the served request must not be logged again with the rejection's status
+    return True
+
+
 # ---- 3. line integrity -------------------------------------------------------------------------------------------------------
 SOURCES = ["raw_uri", "query", "path", "referer", "user_agent", "req_header", "resp_header", "environ", "user", "method",
            "remote_addr"]
@@ -242,6 +279,8 @@ OBLIGATIONS = [
     Ob("C19.once.twin", "once_twin", cases=[{"kind": "sync"}], expect="refute", timeout=300),
     Ob("C19.rejected", "rejected", cases=[{"kind": k} for k in ("sync", "gthread", "async")], timeout=600,
        bound="6 malformed / truncated heads x each worker class: no application call, at most one access record"),
+    Ob("C19.keepalive_reject", "keepalive_reject", timeout=600,
+       bound="gthread / async-base keep-alive connection: one served request followed by one of 6 malformed / truncated heads"),
     Ob("C19.line", "line", cases={"quick": [{"source": s, "atom": a, "n": 2} for s, a in _LINE],
                                   "thorough": [{"source": s, "atom": a, "n": 3} for s, a in _LINE]},
        timeout={"quick": 900, "thorough": 3000},
